@@ -1,17 +1,20 @@
 """C06: filters impose their constraints exactly and idempotently
-(spec/Filters.tla + FiltersVec.tla + FiltersMat.tla, harness/c06_filters.cpp)"""
+(spec/Filters.tla + FiltersLife.tla + FiltersMat.tla, harness/c06_filters.cpp)"""
 import os, json
 import vlib
 
 LEVEL = "model_checking"
 
-VEC_INV = "FilterOK ExactDomain ConstraintHolds ComplementHolds IdempotentHolds Emit"
+VEC_INV = "FilterOK LifeCycleLaw ExactDomain ConstraintHolds ComplementHolds IdempotentHolds Emit"
+LC_ALL = ["none", "clone_deep", "clone_weak", "clone_shallow", "clone_into", "convert_same", "convert_other", "move_ctor", "move_assign"]
 MAT_INV = "RepValid MatConstraint MatComplement MatIdempotent FilteredSolve Emit"
 
 
-def vec_cfg(fam, minn, maxn, bs, depth, pal):
-    return ("SPECIFICATION Spec\nCONSTANTS Family = \"%s\" MinN = %d MaxN = %d BS = %d Depth = %d Pal = %d\n"
-            "INVARIANTS %s\nCHECK_DEADLOCK FALSE\n" % (fam, minn, maxn, bs, depth, pal, VEC_INV))
+def vec_cfg(fam, minn, maxn, bs, depth, pal, lcs=0):
+    """lcs = 0: the filter is applied as built; 1: every life-cycle operation (clone modes, convert, move) first"""
+    lc = "{" + ", ".join('"%s"' % x for x in (LC_ALL if lcs else ["none"])) + "}"
+    return ("SPECIFICATION Spec\nCONSTANTS Family = \"%s\" MinN = %d MaxN = %d BS = %d Depth = %d Pal = %d LCs = %s\n"
+            "INVARIANTS %s\nCHECK_DEADLOCK FALSE\n" % (fam, minn, maxn, bs, depth, pal, lc, VEC_INV))
 
 
 def mat_cfg(fmt, maxm, maxn, square, bh, bw, comp, pal):
@@ -29,6 +32,14 @@ def vec_configs(tier):
             if bs >= 2:
                 c.append(("slip", 0, 5, bs, 1, pal))
         c.append(("none", 0, 5, bs, 1, 1))
+    # life-cycle: clone (deep/weak/shallow, returning and in-place), convert (same / other types), move, then apply
+    c += [("unit", 0, 3, 1, 1, 1, 1), ("unit", 0, 3, 2, 1, 2, 1), ("unit", 0, 2, 3, 1, 1, 1), ("slip", 0, 3, 2, 1, 1, 1), ("slip", 0, 2, 3, 1, 2, 1),
+          ("mean", 0, 3, 1, 1, 2, 1), ("mean", 0, 2, 2, 1, 1, 1), ("none", 0, 1, 1, 1, 1, 1), ("none", 0, 1, 2, 1, 1, 1),
+          ("chain", 0, 2, 1, 2, 1, 1), ("chain", 0, 2, 2, 2, 1, 1), ("seq", 0, 2, 2, 2, 2, 1), ("seq", 0, 2, 1, 3, 1, 1),
+          ("tuple", 0, 1, 2, 1, 1, 1), ("power", 0, 2, 1, 1, 1, 1), ("nest", 0, 1, 2, 1, 1, 1)]
+    if tier == "thorough":
+        c += [("chain", 0, 3, 2, 2, 2, 1), ("chain", 0, 2, 1, 3, 2, 1), ("chain", 0, 2, 3, 2, 1, 1), ("tuple", 0, 2, 3, 1, 2, 1), ("slip", 4, 4, 2, 1, 2, 1),
+              ("unit", 4, 4, 2, 1, 2, 1)]
     if tier == "thorough":
         c += [("chain", 0, 3, 1, 3, 1), ("chain", 4, 4, 1, 3, 1), ("chain", 0, 3, 1, 3, 2),
               ("chain", 0, 2, 2, 3, 1), ("chain", 0, 2, 2, 3, 2), ("chain", 3, 3, 2, 3, 1), ("chain", 4, 4, 2, 2, 2),
@@ -60,10 +71,10 @@ def generate(chk, tier):
     import concurrent.futures as cf
     jobs = []
     for k, a in enumerate(vec_configs(tier)):
-        name = "gen_FiltersVec_%d_%d.cfg" % (os.getpid(), k)
+        name = "gen_FiltersLife_%d_%d.cfg" % (os.getpid(), k)
         with open(os.path.join(vlib.SPEC, name), "w") as f:
             f.write(vec_cfg(*a))
-        jobs.append(("FiltersVec", name, "vec %s n%d..%d bs%d depth%d pal%d" % a))
+        jobs.append(("FiltersLife", name, "vec %s n%d..%d bs%d depth%d pal%d" % a[:6] + (" lifecycle" if len(a) > 6 and a[6] else "")))
     for k, a in enumerate(mat_configs(tier)):
         name = "gen_FiltersMat_%d_%d.cfg" % (os.getpid(), k)
         with open(os.path.join(vlib.SPEC, name), "w") as f:
@@ -122,14 +133,14 @@ def sig(c, r):
                   "arrays": 0 if (len(c["rep"]["ci"]) == 0 and (c.get("arrays", 1) == 0 or c["m"] == 0 or c["n"] == 0)) else 1,
                   "bh": c["bh"], "bw": c["bw"]})
     else:
-        s.update({"part": "vector", "fam": c["fam"], "op": c["op"], "n": c["n"]})
+        s.update({"part": "vector", "fam": c["fam"], "op": c["op"], "n": c["n"], "lc": c.get("lc", "none")})
     return s
 
 
 def key(c):
     if "act" in c:
         return json.dumps(["m", c["fmt"], c["bh"], c["bw"], c["m"], c["n"], c["rep"], c["f"], c["act"], c.get("arrays", 1)])
-    return json.dumps(["v", c["fam"], c["f"], c["op"], c["n"]])
+    return json.dumps(["v", c["fam"], c["f"], c["op"], c["n"], c.get("lc", "none")])
 
 
 def nontrivial(c):
@@ -151,10 +162,12 @@ def run(chk):
     chk.extra["vector_behaviours"] = nv
     chk.extra["matrix_behaviours"] = len(cases) - nv
     chk.extra["float_instantiation_skipped"] = sum(1 for c in cases if "act" not in c and not c["f32"])
+    chk.extra["lifecycle_behaviours"] = sum(1 for c in cases if c.get("lc", "none") != "none")
     chk.extra["solve_cases"] = sum(1 for c in cases if c.get("solvable"))
     chk.extra["chains_not_guaranteed_idempotent"] = sum(1 for c in cases if "act" not in c and not c["idem"])
-    chk.rule = ("every behaviour of spec/FiltersVec.tla (filter family x vector size 0..5 blocks x ALL index sets x block size 1..3 x "
-                "operation rhs/sol/def/cor, the call made twice; chains/sequences of <=3 parts in all orders, tuple/power/nested) and of "
+    chk.rule = ("every behaviour of spec/FiltersLife.tla (filter family x vector size 0..5 blocks x ALL index sets x block size 1..3 x "
+                "operation rhs/sol/def/cor, the call made twice, on the filter as built and - smaller bounds - on its clone (deep/weak/shallow, in-place), "
+                "its convert (same / other data+index types) and its move-constructed / move-assigned copy; chains/sequences of <=3 parts in all orders, tuple/power/nested) and of "
                 "spec/FiltersMat.tla (all shapes <=3x3(4), all sparsity patterns, all constrained row sets, filter_mat / "
                 "filter_offdiag_row_mat made twice, CSR and BCSR block shapes 1x2,2x2,2x3,3x2, filtered solve on square CSR); each "
                 "behaviour replayed on the real classes for double/uint64 and (if certified exact) float/uint32, two construction "
